@@ -140,7 +140,7 @@ pub fn plan(prop: &str) -> Option<Plan> {
             p.o_link_weak = 18;
             p.o_upgrade = 16;
             p.o_unlink = 12;
-            p.kinds = vec![(24, Kind::D), (24, Kind::R), (6, Kind::L), (2, Kind::LS), (12, Kind::LB), (12, Kind::RB), (10, Kind::OB), (2, Kind::Sl), (2, Kind::SH), (2, Kind::Dyn), (6, Kind::P), (4, Kind::DB), (3, Kind::NT), (8, Kind::Set)];
+            p.kinds = vec![(24, Kind::D), (24, Kind::R), (6, Kind::L), (2, Kind::LS), (12, Kind::LB), (12, Kind::RB), (10, Kind::OB), (2, Kind::Sl), (2, Kind::SH), (2, Kind::Dyn), (6, Kind::P), (4, Kind::DB), (3, Kind::NT), (4, Kind::HSl), (8, Kind::Set)];
             Plan {
                 prop: "C06",
                 profile: p,
